@@ -16,7 +16,7 @@ import threading as _rt
 import types
 
 MAX_FORCED_FIRES = 300  # forced timer firings in one execution before it is declared non-terminating
-WATCHDOG_S = float(os.environ.get("VERIF_WATCHDOG", "20"))
+WATCHDOG_S = float(os.environ.get("VERIF_WATCHDOG", "120"))
 
 
 class Abort(BaseException):
@@ -91,6 +91,13 @@ class MThread(object):
             raise RuntimeError("threads can only be started once")
         s = S
         s.point("thread.start")
+        # environment fault owned by the harness: the n-th start of a thread whose name begins with the given prefix fails the
+        # way the interpreter fails under resource exhaustion
+        fault = getattr(s.harness, "thread_start_fault", None) if getattr(s, "harness", None) is not None else None
+        if fault is not None and self.name.startswith(fault[0]):
+            s.start_count = getattr(s, "start_count", 0) + 1
+            if s.start_count in fault[1]:
+                raise RuntimeError("can't start new thread")
         self.state = "run"
         self.index = len(s.threads)
         self.ident = 1000 + self.index
@@ -667,6 +674,7 @@ def run_one(main, choices=(), expect=None, timer_budget=0, audited=(), step=None
     global S
     s = Scheduler(choices, timer_budget, audited, step, expect, opcode_funcs)
     s.abstract = abstract
+    s.harness = getattr(main, "__self__", None)
     s.lenient = lenient
     s.record_trace = record_trace
     if count_states:
